@@ -22,6 +22,7 @@ import time
 HERE = os.path.dirname(os.path.abspath(__file__))
 VERIF = os.path.dirname(HERE)
 REPO = os.environ.get("VERIF_REPO", "/repo")
+OUTROOT = os.environ.get("VERIF_OUT", VERIF)      # evidence/ and replays/ go here (seed runs redirect it)
 sys.path.insert(0, HERE)
 import extract as X  # noqa: E402
 
@@ -261,6 +262,11 @@ def build_tu(vu, work, canary=None):
                 raise Undecided("extraction", str(ex))
             if kind != "whole":
                 # carry the source file's own using-declarations (file scope) along with the extract
+                # ... and its own system includes, where the std model has that header
+                for inc in re.findall(r'(?m)^#include\s*<([\w./]+)>', text):
+                    if inc not in emitted_using and os.path.exists(os.path.join(VERIF, "vstl", inc)):
+                        emitted_using.add(inc)
+                        out.append("#include <%s>" % inc)
                 for u in re.findall(r'(?m)^using\s+(?:std::\w+|namespace\s+std)\s*;', text):
                     if u not in emitted_using:
                         emitted_using.add(u)
@@ -606,7 +612,7 @@ def main():
         print("UNDECIDED property=%s reason=no-verification-units" % pid)
         sys.exit(2)
 
-    workroot = os.path.join(VERIF, "work", "%s-%d" % (pid, os.getpid()))
+    workroot = os.path.join(os.environ.get("VERIF_WORK", os.path.join(VERIF, "work")), "%s-%d" % (pid, os.getpid()))
     os.makedirs(workroot, exist_ok=True)
     known = [k for k in load_known() if k["property"] == pid]
     results = []
@@ -661,8 +667,8 @@ def main():
             vu_reports.append(rep)
 
         # ------------------------------------------------ failures: known findings, replay
-        os.makedirs(os.path.join(VERIF, "replays"), exist_ok=True)
-        for old in glob.glob(os.path.join(VERIF, "replays", pid + "-*.json")):
+        os.makedirs(os.path.join(OUTROOT, "replays"), exist_ok=True)
+        for old in glob.glob(os.path.join(OUTROOT, "replays", pid + "-*.json")):
             if args.vu is None or ("-" + args.vu + "-") in old:
                 os.remove(old)
         out_lines = []
@@ -717,7 +723,7 @@ def main():
                     native = {"reproduced": False, "error": repr(ex)}
             rp["native_replay"] = native
             safe = re.sub(r'[^A-Za-z0-9_.-]+', '_', "%s-%s-%s" % (pid, vname, ename))[:150]
-            path = os.path.join(VERIF, "replays", safe + ".json")
+            path = os.path.join(OUTROOT, "replays", safe + ".json")
             json.dump(rp, open(path, "w"), indent=1, default=str)
             real_violations += 1
             print("  refuted: %s %s: %s%s" % (vname, ename, oname, (" (+%d more)" % (len(items) - 1)) if len(items) > 1 else ""))
@@ -753,8 +759,8 @@ def main():
     }
     ev = {"property_id": pid, "tier": args.tier, "seed": seed, "level": level, "coverage": cov,
           "assumptions": sorted(assumptions), "wall_s": round(time.time() - t0, 1), "violations": real_violations}
-    os.makedirs(os.path.join(VERIF, "evidence"), exist_ok=True)
-    json.dump(ev, open(os.path.join(VERIF, "evidence", pid + ".json"), "w"), indent=1, default=str)
+    os.makedirs(os.path.join(OUTROOT, "evidence"), exist_ok=True)
+    json.dump(ev, open(os.path.join(OUTROOT, "evidence", pid + ".json"), "w"), indent=1, default=str)
 
     if not args.keep:
         shutil.rmtree(workroot, ignore_errors=True)
